@@ -3,7 +3,7 @@
    duplicate, zero-length entries, long entries followed by short ones, ends up to one base past
    the chromosome (the writer does not check ends), one or several chromosomes. *)
 EXTENDS BigBedSpec, Json
-CONSTANTS NC, L, MaxItems, MaxPerChrom, IPS, ZoomLists, EndSlack
+CONSTANTS MinItems, NC, L, MaxItems, MaxPerChrom, IPS, ZoomLists, EndSlack
 VARIABLES input, cur, pos, nIn, done, ips, zl
 vars == <<input, cur, pos, nIn, done, ips, zl>>
 ZL == CASE ZoomLists = "a" -> {<<>>, <<2>>, <<3>>, <<2, 4>>}
@@ -16,7 +16,7 @@ AddEntry(s, e) ==
   /\ UNCHANGED <<cur, done, ips, zl>>
 NextChrom(c) == /\ ~done /\ (cur = 0 \/ nIn > 0) /\ Len(input) < MaxItems
                 /\ cur' = c /\ pos' = 0 /\ nIn' = 0 /\ UNCHANGED <<input, done, ips, zl>>
-Finish == /\ ~done /\ cur > 0 /\ nIn > 0 /\ done' = TRUE /\ UNCHANGED <<input, cur, pos, nIn, ips, zl>>
+Finish == /\ ~done /\ cur > 0 /\ nIn > 0 /\ Len(input) >= MinItems /\ done' = TRUE /\ UNCHANGED <<input, cur, pos, nIn, ips, zl>>
 Next == \/ \E s \in pos..(L - 1) : \E e \in s..(L + EndSlack) : AddEntry(s, e)
         \/ \E c \in (cur + 1)..NC : NextChrom(c)
         \/ Finish
